@@ -10,7 +10,7 @@
    * all theorems hold for every codec with decode (encode c) = Some c (and, where stated, with no proper
      prefix of an encoding decoding); Run.v's evaluation codec is one (toy_roundtrip, toy_prefix_free). *)
 From Coq Require Import Sorting.Sorted.
-From VP Require Import Base.Tactics Store.Model Store.Run Store.ProofsFs Store.ProofsMgr Store.ProofsC21.
+From VP Require Import Base.Tactics Store.Model Store.Run Store.ProofsFs Store.ProofsMgr Store.ProofsC21 Store.ProofsKeep.
 Open Scope N_scope.
 
 (* After any history of saves, restarts and crashes at any point (any length, any max >= 1), recovery
@@ -53,6 +53,16 @@ Theorem C21_older_recovered_when_newest_unreadable :
     fs_get (sfs (run encode max evs)) (FCk (cid c2)) <> None ->
     recover decode (sfs (run encode max (evs ++ [ECorrupt b]))) = Ok (Some c2).
 Proof. exact older_recovered. Qed.
+
+(* With max_checkpoints >= 2 the previous checkpoint is always still stored: whenever at least two
+   checkpoints were completely written and the newest file becomes unreadable, recovery returns the
+   previous one. *)
+Theorem C21_older_always_recovered_max2 :
+  forall encode decode, codec_roundtrip encode decode ->
+  forall max evs b c1 c2 D, (2 <= max)%nat -> Forall ev_clean evs ->
+    decode b = None -> sdone (run encode max evs) = c1 :: c2 :: D ->
+    recover decode (sfs (run encode max (evs ++ [ECorrupt b]))) = Ok (Some c2).
+Proof. exact older_always_recovered. Qed.
 
 Example C21_older_hypotheses_satisfiable :
   let evs := [ENew; ESave 5; ECrash 6 1 None; ENew; ECrash 7 2 (Some 3%nat); ENew; ESave 8] in
